@@ -5930,8 +5930,8 @@ def parse_file_entry(icbdata, abs_file_entry_extent, icb_log_block_num, parent):
     return file_entry
 
 
-def parse_file_ident(data, current_extent, part_start, udf_file_entry):
-    # type: (bytes, int, int, UDFFileEntry) -> Tuple[UDFFileIdentifierDescriptor, int]
+def parse_file_ident(data, current_extent, part_start, udf_file_entry, offset=0):
+    # type: (bytes, int, int, UDFFileEntry, int) -> Tuple[UDFFileIdentifierDescriptor, int]
     """
     An internal method to parse a single UDF File Identifier and return the
     corresponding object.
@@ -5942,10 +5942,24 @@ def parse_file_ident(data, current_extent, part_start, udf_file_entry):
      part_start - The start of the logical partition.
      udf_file_entry - The UDF File Entry that corresponds with this File
                       Identifier.
+     offset - The offset into the data that the File Identifier starts at.
     Returns:
      A tuple where the first item is a UDFFileIdentifierDescriptor, and the
      second item is the number of bytes the descriptor consumed.
     """
+    if len(data) - offset >= struct.calcsize(UDFFileIdentifierDescriptor.FMT):
+        # Cut the bytes of this descriptor (and those that its tag CRC covers)
+        # out of the data.  A slice up to the end of the data for each of the
+        # descriptors of a directory takes time quadratic in their number.
+        (tag_unused, version_unused, characteristics_unused, len_fi, icb_unused,
+         len_impl_use) = struct.unpack_from(UDFFileIdentifierDescriptor.FMT, data, offset)
+        desc_crc_length = struct.unpack_from(UDFTag.FMT, data, offset)[6]
+        end = struct.calcsize(UDFFileIdentifierDescriptor.FMT) + len_impl_use + len_fi
+        end += UDFFileIdentifierDescriptor.pad(end)
+        data = data[offset:offset + max(end, 16 + desc_crc_length)]
+    else:
+        data = data[offset:]
+
     desc_tag = UDFTag()
     desc_tag.parse(data, current_extent - part_start)
     if desc_tag.tag_ident != 257:
